@@ -49,6 +49,9 @@ def run(ctx, obs):
     from ..rules.axis import AxisEval
     for q in POOLS:
         AxisEval(ctx, q, {}, method_roles={'get_vectors': ('R', 'P')}).check_function(obs, 'AXIS', None)
+    from ..rules.sibnorm import compare_siblings
+    compare_siblings(ctx, obs, POOLS[0], POOLS[1], 'method', ('cosine', 'corr', 'cosine_cov', 'corr_cov', 'euclid'),
+                     {'rdms': 'rdms'}, what='RDM vectors')
     if n < 8:
         obs.unk('NORM', POOLS[0], 'per-RDM normalisation statistics in pool_rdm', f'only {n} normalising reductions recognised')
 
